@@ -134,8 +134,9 @@ class Recorder:
         for v in res.get("violations", ()):
             b = v["bucket"]
             lst = self.buckets.setdefault(b, [])
-            size = len(canon(params))
-            lst.append((size, params, v, origin))
+            vp = v.pop("params", None) or params      # a sub-run may name its own minimal params
+            size = len(canon(vp))
+            lst.append((size, vp, v, origin))
             lst.sort(key=lambda x: x[0])
             del lst[self.MAX_PER_BUCKET:]
         return res
